@@ -1,14 +1,18 @@
-(* C17, layer 4: operating-system faults at a representation change.
+(* C17, layer 4: operating-system faults at a representation change
+   (the code after /repo commit c9585b7).
 
-   FCtor (TemporaryFile() / BytesIO() raises while an operation builds a new
-   representation): the exception propagates and the buffer is still a faithful
-   queue -- untouched, or, for an append() that had already written its bytes
-   to the in-memory file before the spill to disk was attempted, the old queue
-   plus those bytes.  Every later history refines the FIFO queue from there.
+   For every fault of Model/Buffers.v -- the constructor of the new file object
+   raising (FCtor k), the copy loop's write raising while spilling to disk
+   (FCopyWrite), the write of _create_buffer's buf.append(self.strbuf) raising
+   (FCreateWrite), the write of append()'s buf.append(s) raising (FAppendWrite) --
+   at any operation of any history: the exception propagates and the buffer is
+   still a faithful queue: untouched, or, for an append() whose bytes had
+   already been written to the in-memory file before the spill to disk was
+   attempted, the old queue plus those bytes.  Every later history refines the
+   FIFO queue from there.
 
-   FCopyWrite (the copy loop's file.write raises while spilling to disk): the
-   source file has been rewound and read and is NOT repositioned; the statement
-   above is false for it -- [fault_copy_write_refuted]. *)
+   Before c9585b7 this was false for FCopyWrite: [fb_init_old] is the old shape of
+   FileBasedBuffer.__init__ and [fault_copy_write_refuted_old] the witness. *)
 From Coq Require Import List NArith ZArith Bool Lia ZifyBool Arith.
 From WV Require Import Lib.PyBytes Model.Buffers Spec.Fifo Proof.Buffers Proof.BuffersRefine.
 Import ListNotations.
@@ -17,60 +21,146 @@ Local Open Scope Z_scope.
 Lemma obuf_eta o : mkobuf (ob_buf o) (ob_strbuf o) (ob_overflowed o) = o.
 Proof. now destruct o. Qed.
 
-(* a constructor fault of kind k only concerns constructions of kind k *)
-Lemma fb_init_ctor k k2 from :
-  fb_init (FCtor k) k2 from = if kind_eqb k k2 then InitExn OSFault from else fb_init FNone k2 from.
-Proof. destruct k, k2, from; reflexivity. Qed.
+(* ------------------------------------------------------- constructors --- *)
 
-Lemma set_large_ctor k o :
-  o_set_large_buffer (FCtor k) o = if kind_eqb k KTmp then (o, Exn OSFault) else o_set_large_buffer FNone o.
+Lemma fb_init_none_f flt k :
+  fb_init flt k None = if ctor_fails flt k then InitExn OSFault None else fb_init FNone k None.
+Proof. unfold fb_init. destruct (ctor_fails flt k); reflexivity. Qed.
+
+(* from an intact buffer the constructor either raises the fault and leaves the
+   source exactly as it was, or behaves as without fault *)
+Lemma fb_init_some_f flt k b : fb_inv b ->
+  fb_init flt k (Some b) = InitExn OSFault (Some b) \/
+  fb_init flt k (Some b) = fb_init FNone k (Some b).
 Proof.
-  unfold o_set_large_buffer. rewrite fb_init_ctor. destruct (kind_eqb k KTmp); [now rewrite obuf_eta | reflexivity].
+  intros (Hc & Hp & Hr). destruct b as [k0 [c p cl] r]. cbn in Hc. subst cl.
+  unfold fb_init. destruct (ctor_fails flt k) eqn:E; [left; reflexivity|].
+  cbn [ctor_fails]. cbn [fb_file f_closed].
+  destruct flt; try (right; reflexivity).
+  unfold f_read_all, f_seek_set, f_tell. cbn [f_pos f_content f_closed skipn fb_kind fb_remain fb_file].
+  destruct c as [|x c]; [right; reflexivity | left; reflexivity].
 Qed.
 
-Lemma set_small_ctor k o :
-  o_set_small_buffer (FCtor k) o = if kind_eqb k KBio then (o, Exn OSFault) else o_set_small_buffer FNone o.
+Definition bufs_ok (o : obuf) : Prop := forall b, ob_buf o = Some b -> fb_inv b.
+
+Lemma inv_bufs_ok o : inv o -> bufs_ok o.
+Proof. intros Hi b Hb. unfold inv in Hi. rewrite Hb in Hi. tauto. Qed.
+
+Lemma set_large_f flt o : bufs_ok o ->
+  o_set_large_buffer flt o = (o, Exn OSFault) \/ o_set_large_buffer flt o = o_set_large_buffer FNone o.
 Proof.
-  unfold o_set_small_buffer. rewrite fb_init_ctor. destruct (kind_eqb k KBio); [now rewrite obuf_eta | reflexivity].
+  intro Hok. unfold o_set_large_buffer. destruct (ob_buf o) as [b|] eqn:Hb.
+  - destruct (fb_init_some_f flt KTmp b (Hok b Hb)) as [H | H]; rewrite H.
+    + left. now rewrite <- Hb, obuf_eta.
+    + right. reflexivity.
+  - rewrite fb_init_none_f. destruct (ctor_fails flt KTmp).
+    + left. now rewrite <- Hb, obuf_eta.
+    + right. reflexivity.
 Qed.
 
-Lemma create_buffer_ctor k ovf o :
-  o_create_buffer (FCtor k) ovf o = (o, Exn OSFault) \/
-  o_create_buffer (FCtor k) ovf o = o_create_buffer FNone ovf o.
+Lemma set_small_f flt o : bufs_ok o ->
+  o_set_small_buffer flt o = (o, Exn OSFault) \/ o_set_small_buffer flt o = o_set_small_buffer FNone o.
 Proof.
-  unfold o_create_buffer. rewrite set_large_ctor, set_small_ctor.
+  intro Hok. unfold o_set_small_buffer. destruct (ob_buf o) as [b|] eqn:Hb.
+  - destruct (fb_init_some_f flt KBio b (Hok b Hb)) as [H | H]; rewrite H.
+    + left. now rewrite <- Hb, obuf_eta.
+    + right. reflexivity.
+  - rewrite fb_init_none_f. destruct (ctor_fails flt KBio).
+    + left. now rewrite <- Hb, obuf_eta.
+    + right. reflexivity.
+Qed.
+
+(* _create_buffer under any fault: nothing at all has happened, or no fault struck *)
+Lemma create_buffer_f flt ovf o : inv o -> ob_buf o = None ->
+  o_create_buffer flt ovf o = (o, Exn OSFault) \/
+  o_create_buffer flt ovf o = o_create_buffer FNone ovf o.
+Proof.
+  intros Hi Hb. pose proof (inv_bufs_ok o Hi) as Hok.
+  assert (Hov : ob_overflowed o = false) by (unfold inv in Hi; now rewrite Hb in Hi).
+  unfold o_create_buffer.
+  assert (Hset : forall (setf : fault -> obuf -> obuf * outcome fbuf) k ovd,
+            (forall f, setf f o = match fb_init f k (ob_buf o) with
+                                  | InitExn e old => (mkobuf old (ob_strbuf o) (ob_overflowed o), Exn e)
+                                  | InitOk nb => (mkobuf (Some nb) (ob_strbuf o) ovd, Ok nb) end) ->
+            (let '(o1, r) := setf flt o in
+             match r with
+             | Exn e => (o1, Exn e)
+             | Ok buf => match ob_strbuf o with
+                         | [] => (o1, Ok buf)
+                         | _ :: _ => match fb_append (is_create_write flt) buf (ob_strbuf o1) with
+                                     | Exn e => (mkobuf None (ob_strbuf o1) false, Exn e)
+                                     | Ok buf' => (mkobuf (Some buf') [] (ob_overflowed o1), Ok buf')
+                                     end
+                         end
+             end) = (o, Exn OSFault) \/
+            (let '(o1, r) := setf flt o in
+             match r with
+             | Exn e => (o1, Exn e)
+             | Ok buf => match ob_strbuf o with
+                         | [] => (o1, Ok buf)
+                         | _ :: _ => match fb_append (is_create_write flt) buf (ob_strbuf o1) with
+                                     | Exn e => (mkobuf None (ob_strbuf o1) false, Exn e)
+                                     | Ok buf' => (mkobuf (Some buf') [] (ob_overflowed o1), Ok buf')
+                                     end
+                         end
+             end) =
+            (let '(o1, r) := setf FNone o in
+             match r with
+             | Exn e => (o1, Exn e)
+             | Ok buf => match ob_strbuf o with
+                         | [] => (o1, Ok buf)
+                         | _ :: _ => match fb_append (is_create_write FNone) buf (ob_strbuf o1) with
+                                     | Exn e => (mkobuf None (ob_strbuf o1) false, Exn e)
+                                     | Ok buf' => (mkobuf (Some buf') [] (ob_overflowed o1), Ok buf')
+                                     end
+                         end
+             end)).
+  { intros setf k ovd Hs. rewrite !Hs, Hb, !fb_init_none_f. cbn [ctor_fails].
+    destruct (ctor_fails flt k).
+    - left. now rewrite <- Hb, obuf_eta.
+    - rewrite fb_init_none. cbn [ob_strbuf ob_overflowed].
+      destruct (ob_strbuf o) as [|x sb] eqn:Es; [right; reflexivity|].
+      destruct flt; try (right; reflexivity).
+      left. cbn [is_create_write]. rewrite fb_append_fails by reflexivity.
+      destruct o as [ob sb0 ovd0]. cbn in *. now subst. }
   destruct (lenZ (ob_strbuf o) >=? Z.of_N ovf).
-  - destruct (kind_eqb k KTmp); [left | right]; reflexivity.
-  - destruct (kind_eqb k KBio); [left | right]; reflexivity.
+  - apply (Hset o_set_large_buffer KTmp true). reflexivity.
+  - apply (Hset o_set_small_buffer KBio false). reflexivity.
 Qed.
 
 (* what a faulted operation leaves behind *)
 Definition fault_ok (o : obuf) (p : op) (o' : obuf) : Prop :=
   abs o' = abs o \/ (exists s, p = OAppend s /\ abs o' = abs o ++ s).
 
-Lemma append_tail_ctor k ovf s o b : inv o -> ob_buf o = Some b ->
-  let r := o_append_tail (FCtor k) ovf s o b in
+Lemma append_tail_f flt ovf s o b : inv o -> ob_buf o = Some b ->
+  let r := o_append_tail flt ovf s o b in
   inv (fst r) /\
-  ((snd r = Exn OSFault /\ abs (fst r) = abs o ++ s) \/ r = o_append_tail FNone ovf s o b).
+  ((snd r = Exn OSFault /\ (abs (fst r) = abs o \/ abs (fst r) = abs o ++ s)) \/
+   r = o_append_tail FNone ovf s o b).
 Proof.
   intros Hi Hb. assert (Habs0 : abs o = fb_abs b) by (unfold abs; now rewrite Hb).
   destruct (append_tail_spec ovf s o b Hi Hb) as (on & Hn1 & Hn2 & _).
   pose proof Hi as Hi0. inv_some Hi Hb.
   destruct (fb_append_spec b s Hfb) as (b' & Ha & Hi' & Habs & Hk' & Hp & Hc & Hr).
-  unfold o_append_tail in *. rewrite Ha in *. cbn [ob_overflowed ob_strbuf] in *.
-  destruct (negb (ob_overflowed o)); [|cbv zeta; cbn [fst snd]; split; [inversion Hn1; subst; assumption | right; reflexivity]].
-  destruct (fb_len b' >=? Z.of_N ovf); [|cbv zeta; cbn [fst snd]; split; [inversion Hn1; subst; assumption | right; reflexivity]].
-  rewrite set_large_ctor. destruct (kind_eqb k KTmp).
-  - cbv zeta. cbn [fst snd]. split.
-    + unfold inv; cbn [ob_buf ob_strbuf ob_overflowed]. rewrite Hk'.
-      repeat split; auto; try apply Hi'; try apply Hov; try discriminate.
-    + left. split; [reflexivity|]. unfold abs at 1. cbn [ob_buf]. now rewrite Habs0.
-  - cbv zeta. split; [|right; reflexivity].
-    destruct (o_set_large_buffer FNone _) as [o3 [x|e]]; cbn [fst]; inversion Hn1; subst; assumption.
+  unfold o_append_tail in *. cbn [is_append_write] in Hn1.
+  destruct (is_append_write flt) eqn:Eaw.
+  - rewrite fb_append_fails by apply Hfb. cbv zeta. cbn [fst snd]. split; [exact Hi0|].
+    left. split; [reflexivity | now left].
+  - rewrite Ha in *. cbn [ob_overflowed ob_strbuf] in *.
+    assert (Hi2 : inv (mkobuf (Some b') (ob_strbuf o) (ob_overflowed o))).
+    { unfold inv; cbn [ob_buf ob_strbuf ob_overflowed]. rewrite Hk'.
+      repeat split; auto; try apply Hi'; try apply Hov; try discriminate. }
+    destruct (negb (ob_overflowed o)); [|cbv zeta; cbn [fst snd]; split; [exact Hi2 | right; reflexivity]].
+    destruct (fb_len b' >=? Z.of_N ovf); [|cbv zeta; cbn [fst snd]; split; [exact Hi2 | right; reflexivity]].
+    destruct (set_large_f flt _ (inv_bufs_ok _ Hi2)) as [H | H]; rewrite H.
+    + cbv zeta. cbn [fst snd]. split; [exact Hi2|].
+      left. split; [reflexivity|]. right. unfold abs at 1. cbn [ob_buf]. now rewrite Habs0.
+    + cbv zeta. split; [|right; reflexivity].
+      destruct (o_set_large_buffer FNone _) as [o3 [x|e]]; cbn [fst]; inversion Hn1; subst; assumption.
 Qed.
 
-Lemma fault_ctor_step k limit ovf o p : inv o -> live p ->
-  let r := step_f (FCtor k) limit ovf o p in
+Lemma fault_step flt limit ovf o p : inv o -> live p ->
+  let r := step_f flt limit ovf o p in
   inv (fst r) /\
   ((snd r = RExn OSFault /\ fault_ok o p (fst r)) \/ r = step limit ovf o p).
 Proof.
@@ -78,27 +168,28 @@ Proof.
   assert (Hfree : inv (fst (step_f FNone limit ovf o p))) by (apply (step_refines limit ovf o p Hi Hl)).
   destruct p as [s | n sk | n ap | | |]; unfold step_f in *; cbv zeta.
   - unfold o_append in *. destruct (ob_buf o) as [b|] eqn:Hb.
-    + destruct (append_tail_ctor k ovf s o b Hi Hb) as (H1 & H2). cbv zeta in H1, H2.
-      destruct (o_append_tail (FCtor k) ovf s o b) as [o' r'] eqn:E. cbn [fst snd] in *.
+    + destruct (append_tail_f flt ovf s o b Hi Hb) as (H1 & H2). cbv zeta in H1, H2.
+      destruct (o_append_tail flt ovf s o b) as [o' r'] eqn:E. cbn [fst snd] in *.
       split; [exact H1|]. destruct H2 as [(-> & H2) | H2].
-      * left. split; [reflexivity|]. right. exists s. auto.
+      * left. split; [reflexivity|]. destruct H2 as [H2 | H2]; [now left | right; exists s; auto].
       * right. now rewrite <- H2.
     + destruct (lenZ (ob_strbuf o) + lenZ s <? Z.of_N limit) eqn:E.
       * cbn [fst snd]. split; [exact Hfree | right; reflexivity].
-      * destruct (create_buffer_ctor k ovf o) as [Hc | Hc]; rewrite Hc.
+      * destruct (create_buffer_f flt ovf o Hi Hb) as [Hc | Hc]; rewrite Hc.
         -- cbn [fst snd lift]. split; [exact Hi|]. left. split; [reflexivity | now left].
         -- destruct (create_buffer_spec ovf o Hi Hb) as (o1 & b & Hc1 & Hb1 & Hi1 & Ha1 & _).
            rewrite Hc1 in *.
-           destruct (append_tail_ctor k ovf s o1 b Hi1 Hb1) as (H1 & H2). cbv zeta in H1, H2.
-           destruct (o_append_tail (FCtor k) ovf s o1 b) as [o' r'] eqn:E'. cbn [fst snd] in *.
+           assert (E1 : abs o1 = abs o) by (rewrite Ha1; unfold abs; now rewrite Hb).
+           destruct (append_tail_f flt ovf s o1 b Hi1 Hb1) as (H1 & H2). cbv zeta in H1, H2.
+           destruct (o_append_tail flt ovf s o1 b) as [o' r'] eqn:E'. cbn [fst snd] in *.
            split; [exact H1|]. destruct H2 as [(-> & H2) | H2].
-           ++ left. split; [reflexivity|]. right. exists s. split; [reflexivity|].
-              rewrite H2, Ha1. unfold abs. now rewrite Hb.
+           ++ left. split; [reflexivity|]. rewrite E1 in H2.
+              destruct H2 as [H2 | H2]; [now left | right; exists s; auto].
            ++ right. now rewrite <- H2.
   - unfold o_get in *. destruct (ob_buf o) as [b|] eqn:Hb.
     + split; [exact Hfree | right; reflexivity].
     + destruct sk; cbn [negb] in *.
-      * destruct (create_buffer_ctor k ovf o) as [Hc | Hc]; rewrite Hc.
+      * destruct (create_buffer_f flt ovf o Hi Hb) as [Hc | Hc]; rewrite Hc.
         -- cbn [fst snd lift]. split; [exact Hi|]. left. split; [reflexivity | now left].
         -- split; [exact Hfree | right; reflexivity].
       * split; [exact Hfree | right; reflexivity].
@@ -106,13 +197,13 @@ Proof.
     + split; [exact Hfree | right; reflexivity].
     + destruct (ap && (Z.of_N n =? lenZ (ob_strbuf o))) eqn:E.
       * split; [exact Hfree | right; reflexivity].
-      * destruct (create_buffer_ctor k ovf o) as [Hc | Hc]; rewrite Hc.
+      * destruct (create_buffer_f flt ovf o Hi Hb) as [Hc | Hc]; rewrite Hc.
         -- cbn [fst snd lift]. split; [exact Hi|]. left. split; [reflexivity | now left].
         -- split; [exact Hfree | right; reflexivity].
   - split; [exact Hfree | right; reflexivity].
   - unfold o_getfile in *. destruct (ob_buf o) as [b|] eqn:Hb.
     + split; [exact Hfree | right; reflexivity].
-    + destruct (create_buffer_ctor k ovf o) as [Hc | Hc]; rewrite Hc.
+    + destruct (create_buffer_f flt ovf o Hi Hb) as [Hc | Hc]; rewrite Hc.
       * cbn [fst snd lift]. split; [exact Hi|]. left. split; [reflexivity | now left].
       * split; [exact Hfree | right; reflexivity].
   - now elim Hl.
@@ -129,9 +220,9 @@ Proof.
   now elim Hp.
 Qed.
 
-(* A fault while creating the new file object, at any point of any history: the
-   exception propagates, no byte is lost or duplicated, len stays truthful, and
-   every continuation of the history is again a refinement of the FIFO queue. *)
+(* A fault at any point of any history: the exception propagates, no byte is lost
+   or duplicated, len stays truthful, and every continuation of the history is
+   again a refinement of the FIFO queue. *)
 Definition fault_atomicity (flt : fault) : Prop :=
   forall limit ovf ops p more, Forall live ops -> live p -> Forall live more ->
   let o := exec limit ovf o_new ops in
@@ -147,12 +238,12 @@ Definition fault_atomicity (flt : fault) : Prop :=
      inv o'' /\ abs o'' = q_exec_op (abs o') more /\ o_len o'' = q_len (abs o'') /\
      forall p', live p' -> out_ok (abs o'') p' (snd (step limit ovf o'' p'))).
 
-Theorem fault_ctor_history k : fault_atomicity (FCtor k).
+Theorem fault_history flt : fault_atomicity flt.
 Proof.
   intros limit ovf ops p more Hl Hp Hm o q r o'.
   destruct (exec_refines limit ovf ops o_new inv_new Hl) as (Hi & Ha). fold o in Hi, Ha.
   change (abs o_new) with q_empty in Ha. fold q in Ha.
-  destruct (fault_ctor_step k limit ovf o p Hi Hp) as (H1 & H2). cbv zeta in H1, H2.
+  destruct (fault_step flt limit ovf o p Hi Hp) as (H1 & H2). cbv zeta in H1, H2.
   fold r in H1, H2. fold o' in H1, H2.
   split.
   - intro Hne. destruct H2 as [(H2 & _) | H2]; [now elim Hne | exact H2].
@@ -167,60 +258,63 @@ Proof.
       repeat split; auto. * now apply abs_len. * intros p' Hp'. now apply step_refines.
 Qed.
 
-(* The copy loop's write failing while spilling to disk: the exception propagates
-   but the in-memory file is left rewound-and-read; here len says 7 while nothing
-   can be read any more (STRBUF_LIMIT 4, overflow 6: append 5 bytes, then append 2
-   bytes with ENOSPC on the temporary file). *)
-Lemma fault_copy_write_refuted :
-  exists limit ovf ops p,
-    Forall live ops /\ live p /\
-    let o := exec limit ovf o_new ops in
-    let r := step_f FCopyWrite limit ovf o p in
-    snd r = RExn OSFault /\
-    ~ inv (fst r) /\
-    o_len (fst r) = 7 /\
-    snd (step limit ovf (fst r) (OGet (-1) false)) = RBytes [] /\
-    ~ (abs (fst r) = abs o \/ exists s, p = OAppend s /\ abs (fst r) = abs o ++ s).
+(* the faults are reachable and the append case of the disjunction is real:
+   STRBUF_LIMIT 4, overflow 6, append 5 bytes (BytesIO), append 2 bytes *)
+Lemma fault_append_case_reachable :
+  let o := exec 4 6 o_new [OAppend [1;2;3;4;5]%N] in
+  (forall flt, In flt [FCtor KTmp; FCopyWrite] ->
+     snd (step_f flt 4 6 o (OAppend [6;7]%N)) = RExn OSFault /\
+     abs (fst (step_f flt 4 6 o (OAppend [6;7]%N))) = abs o ++ [6;7]%N) /\
+  snd (step_f FAppendWrite 4 6 o (OAppend [6;7]%N)) = RExn OSFault /\
+  fst (step_f FAppendWrite 4 6 o (OAppend [6;7]%N)) = o /\
+  step_f FCreateWrite 4 6 (exec 4 6 o_new [OAppend [1;2]%N]) (OGet 1 true) =
+    (exec 4 6 o_new [OAppend [1;2]%N], RExn OSFault).
 Proof.
-  exists 4%N, 6%N, [OAppend [1;2;3;4;5]%N], (OAppend [6;7]%N).
-  split; [repeat constructor; discriminate|]. split; [discriminate|].
-  cbv zeta. vm_compute. repeat split; try reflexivity.
-  - intros (_ & (_ & _ & H) & _). discriminate.
-  - intros [H | (s & Hs & H)]; [discriminate|]. injection Hs as <-. discriminate.
+  cbv zeta. split; [|vm_compute; repeat split].
+  intros flt [<- | [<- | []]]; vm_compute; split; reflexivity.
 Qed.
 
-(* what does survive that fault: the file's content is complete (the old content
-   followed by the appended bytes) and remain still counts from the old read
-   position; only the position is wrong *)
-Lemma fault_copy_write_content ovf s o b : inv o -> ob_buf o = Some b ->
-  snd (o_append_tail FCopyWrite ovf s o b) = Exn OSFault ->
-  exists b', ob_buf (fst (o_append_tail FCopyWrite ovf s o b)) = Some b' /\
-             f_content (fb_file b') = f_content (fb_file b) ++ s /\
-             fb_remain b' = fb_remain b + lenZ s /\
-             f_pos (fb_file b') = length (f_content (fb_file b')) /\
-             f_closed (fb_file b') = false.
-Proof.
-  intros Hi Hb. inv_some Hi Hb.
-  destruct (fb_append_spec b s Hfb) as (b' & Ha & Hi' & Habs & Hk' & Hp & Hc & Hr).
-  unfold o_append_tail. rewrite Ha. cbn [ob_overflowed ob_strbuf].
-  destruct (negb (ob_overflowed o)); [|cbn; discriminate].
-  destruct (fb_len b' >=? Z.of_N ovf); [|cbn; discriminate].
-  unfold o_set_large_buffer, fb_init. cbn [ob_buf ob_strbuf ob_overflowed].
-  destruct Hi' as (Hcl & Hpp & Hrr). rewrite Hcl.
-  unfold f_read_all, f_seek_set, f_tell. cbn [f_pos f_content f_closed skipn].
-  destruct (f_content (fb_file b')) as [|x c'] eqn:Ec.
-  - cbn. discriminate.
-  - cbn [fst snd]. intros _. eexists; split; [reflexivity|].
-    cbn [fb_file fb_remain f_content f_pos f_closed]. rewrite <- Hc. repeat split; auto.
-Qed.
+(* ------------------------------------------ the code before c9585b7 --- *)
 
-Theorem fault_copy_write_not_atomic : ~ fault_atomicity FCopyWrite.
+(* FileBasedBuffer.__init__ as it was: the source file is repositioned only when
+   the copy succeeds *)
+Definition fb_init_old (flt : fault) (k : kind) (from_buffer : option fbuf) : init_result :=
+  if ctor_fails flt k then InitExn OSFault from_buffer else
+  let file := newfile in
+  match from_buffer with
+  | None => InitOk (mkfbuf k file 0)
+  | Some ob =>
+    let from_file := fb_file ob in
+    if f_closed from_file then InitExn ValueErrorClosed from_buffer else
+    let read_pos := f_tell from_file in
+    let from_file := f_seek_set from_file 0 in
+    let '(data, from_file) := f_read_all from_file in
+    match flt, data with
+    | FCopyWrite, _ :: _ => InitExn OSFault (Some (mkfbuf (fb_kind ob) from_file (fb_remain ob)))
+    | _, _ =>
+      let file := f_write file data in
+      let remain := Z.of_nat (f_tell file) - Z.of_nat read_pos in
+      let from_file := f_seek_set from_file read_pos in
+      let file := f_seek_set file read_pos in
+      InitOk (mkfbuf k file remain)
+    end
+  end.
+
+(* without faults the two shapes agree *)
+Lemma fb_init_old_same k from : fb_init_old FNone k from = fb_init FNone k from.
+Proof. destruct from as [b|]; reflexivity. Qed.
+
+(* with the copy write failing, the old shape left the source at its end: len 7, nothing readable *)
+Lemma fault_copy_write_refuted_old :
+  exists b, fb_inv b /\
+    match fb_init_old FCopyWrite KTmp (Some b) with
+    | InitExn OSFault (Some b') =>
+        ~ fb_inv b' /\ fb_remain b' = 7 /\ fb_abs b' = [] /\ f_content (fb_file b') = f_content (fb_file b)
+    | _ => False
+    end /\
+    fb_init FCopyWrite KTmp (Some b) = InitExn OSFault (Some b).
 Proof.
-  intro H.
-  assert (H1 : Forall live [OAppend [1;2;3;4;5]%N]) by (repeat constructor; discriminate).
-  assert (H2 : live (OAppend [6;7]%N)) by discriminate.
-  destruct (H 4%N 6%N _ _ [] H1 H2 (Forall_nil _)) as (_ & H3).
-  destruct H3 as ((_ & (_ & _ & H3) & _) & _); [vm_compute; reflexivity|].
-  rename H3 into HH. clear H. rename HH into H.
-  vm_compute in H. discriminate.
+  exists (mkfbuf KBio (mkfile [1;2;3;4;5;6;7]%N 0 false) 7).
+  split; [repeat split; cbn; lia|]. split; [|reflexivity].
+  vm_compute. repeat split; try reflexivity. intros (_ & _ & H). discriminate.
 Qed.
